@@ -196,7 +196,12 @@ fn gen_line(rng: &mut Rng, streams: &[(String, u64)], storages: &[String], open:
             kh.len() >= kp.len() && kh[..kp.len()] == kp[..]
         })
     };
-    let names = ["n1", "n2", "a", "Zeta", "x10"];
+    // (the last three: 31 characters or fewer, but 32 UTF-16 units - must be refused, not written; 31 units with
+    // surrogate pairs - the longest name there is; a name of astral characters only)
+    let long_astral: String = "abcdefghijklmnopqrstuvwxyzabcd\u{1F600}".to_string();
+    let sixteen: String = "\u{1F600}".repeat(16);
+    let fifteen: String = format!("{}x", "\u{10400}".repeat(15));
+    let names: [&str; 8] = ["n1", "n2", "a", "Zeta", "x10", &long_astral, &sixteen, &fifteen];
     let parent = if !storages.is_empty() && rng.chance(1, 3) { rng.pick(storages).clone() } else { String::new() };
     let w = rng.below(100);
     if !open.is_empty() && w < 45 {
